@@ -108,6 +108,14 @@ theorem facts_port_table :
         | .ok n => some n
         | .error _ => none) == p.2) = true := by decide +kernel
 
+/-- the model's `splitAddress` cuts every text over `{a 1 . : [ ] % /}` up to length 3 (585 texts)
+and the longer bracket cases exactly where the real `NetAddress.from_string` did (observed through a
+subclass that records what the constructor is given; `splitRows` = how many texts could be observed
+that way - 601 on a tree that constructs through `cls`, reported in the evidence) -/
+theorem facts_split_table :
+    splitTable.length = splitRows ∧
+    splitTable.all (fun r => splitAddress r.1 == (r.2.1, r.2.2)) = true := by decide +kernel
+
 /-- the interpreter's int-string digit limit cannot refuse a five-digit port -/
 theorem facts_digit_limit : cfg.maxStrDigits = 0 ∨ 5 ≤ cfg.maxStrDigits := by decide
 
